@@ -21,13 +21,16 @@ class Unknown(Exception):
 
 
 class Env:
-    def __init__(self, bindings, tracked):
+    def __init__(self, bindings, tracked, bools=None):
         self.b = dict(bindings)      # name -> descriptor
         self.tracked = set(tracked)  # function names whose calls become atoms
+        self.bools = dict(bools or {})  # name -> DNF of a let-bound boolean
 
-    def child(self, extra):
-        e = Env(self.b, self.tracked)
+    def child(self, extra, bools=None):
+        e = Env(self.b, self.tracked, self.bools)
         e.b.update(extra)
+        if bools:
+            e.bools.update(bools)
         return e
 
 
@@ -160,7 +163,11 @@ def truth(e, env):
     if k == "Macro" and e["name"] == "matches":
         return [frozenset([("lit", "matches!")])]
     if k == "Path":
+        if e["path"] in env.bools:
+            return env.bools[e["path"]]
         return [frozenset([("lit", e["path"])])]
+    if k == "Paren":
+        return truth(e["e"], env)
     raise Unknown("expression kind " + k)
 
 
@@ -184,7 +191,16 @@ def block_truth(b, env):
         if s["k"] == "Let":
             # simple alias: let x = <expr>;
             if s["pat"]["k"] == "PIdent" and s["init"] is not None:
-                env = env.child({s["pat"]["name"]: desc(s["init"], env)})
+                bools = None
+                if s["init"]["k"] in ("MethodCall", "Call", "Binary", "Unary", "If", "Block"):
+                    # `let ok = xs.iter().zip(ys).all(|..| ..);` -- a named boolean used later in the value
+                    try:
+                        d = truth(s["init"], env)
+                        if not (len(d) == 1 and len(d[0]) == 1 and next(iter(d[0]))[0] == "lit"):
+                            bools = {s["pat"]["name"]: d}
+                    except Unknown:
+                        bools = None
+                env = env.child({s["pat"]["name"]: desc(s["init"], env)}, bools)
             continue
         if s["k"] != "ExprStmt":
             raise Unknown("statement " + s["k"])
